@@ -98,6 +98,35 @@ def tlc(module, cfg, workdir, env=None, workers=None, timeout=600, trace_mode=Fa
     return res
 
 
+def cached_emission(ck, name, module, cfg, env, outputs, spec_files, timeout=3000, xmx="24g", what=None):
+    """Run a Gen_* module whose output depends on the specification files and `env` only (never on /repo), or reuse the emission of
+    an earlier run with the same inputs.  `outputs`: {ENV_NAME: path}.  Returns the TLC result (marked `cached` when reused)."""
+    import hashlib
+    h = hashlib.sha256(json.dumps({k: str(v) for k, v in sorted(env.items())}).encode())
+    for f in [module + ".tla", cfg] + list(spec_files):
+        h.update(open(os.path.join(SPEC, f), "rb").read())
+    cache = os.path.join(VERIF, "work", "cache", "%s_%s" % (name, h.hexdigest()[:16]))
+    meta = os.path.join(cache, "tlc.json")
+    if os.path.exists(meta) and all(os.path.exists(os.path.join(cache, k)) for k in outputs):
+        for k, pth in outputs.items():
+            shutil.copyfile(os.path.join(cache, k), pth)
+        r = json.load(open(meta))
+        r["cached"] = "%s emission reused from %s (TLC statistics are those of the generating run)" % (module, os.path.relpath(cache, VERIF))
+        r["out"] = ""
+        return r
+    e = dict(env)
+    e.update(outputs)
+    r = tlc_must_pass(tlc(module, cfg, ck.work, env=e, workers=1, timeout=timeout, xmx=xmx), what or (name + " gen"))
+    tmp = cache + ".tmp%d" % os.getpid()
+    os.makedirs(tmp, exist_ok=True)
+    for k, pth in outputs.items():
+        shutil.copyfile(pth, os.path.join(tmp, k))
+    json.dump({k: v for k, v in r.items() if k != "out"}, open(os.path.join(tmp, "tlc.json"), "w"))
+    shutil.rmtree(cache, ignore_errors=True)
+    os.rename(tmp, cache)
+    return r
+
+
 def tlc_must_pass(res, what):
     """Model-level runs never depend on /repo: a failure there is a tool/spec error (exit 2)."""
     if not res["ok"]:
